@@ -304,16 +304,17 @@ def case_defs(name, mode, fmt, cap, ops, before, after, chunk=40):
     return "\n".join(out)
 
 
-def coq_eval_defs(ctx, name, cases_defs, names, shard=12, timeout=1500):
+def coq_eval_defs(ctx, name, cases_defs, names, shard=12, timeout=1500,
+                  imports="Base.Bytes Base.Record C20.Model C20.Harness", casety=None, chk="chk"):
     """like vlib.coq_eval_mismatches, for cases given as blocks of Definitions (see case_defs)"""
     import subprocess
     procs, bad, err_all = [], [], ""
     for k in range(0, len(names), shard):
         f = GEN / f"cases_{name}_{k // shard}.v"
-        body = ["From Miller Require Import Base.Bytes Base.Record C20.Model C20.Harness.", "Open Scope Z_scope."]
+        body = [f"From Miller Require Import {imports}.", "Open Scope Z_scope."]
         body += cases_defs[k:k + shard]
-        body += [f"Definition cases : list ({CASETY}) := [{'; '.join(names[k:k + shard])}].",
-                 "Definition M := Eval vm_compute in mismatches chk cases.", "Print M."]
+        body += [f"Definition cases : list ({casety or CASETY}) := [{'; '.join(names[k:k + shard])}].",
+                 f"Definition M := Eval vm_compute in mismatches {chk} cases.", "Print M."]
         f.write_text("\n".join(body) + "\n")
         procs.append((k, f, subprocess.Popen(["timeout", str(timeout), "coqc", "-Q", ".", "Miller", str(f)], cwd=COQ,
                                              stdout=subprocess.PIPE, stderr=subprocess.PIPE, text=True)))
@@ -376,7 +377,7 @@ def drive(ctx, scratch, cases):
                 f.write(content)
         c["dir"] = d
         c["driver"], c["errors"], c["driver_stderr"] = "ok", [], ""
-        return json.dumps({"dir": d, "mode": c["mode"], "fmt": c["fmt"],
+        return json.dumps({"dir": d, "mode": c["mode"], "fmt": c["fmt"], "opts": c.get("opts"),
                            "ops": [[t, k, ([list(kv) for kv in x] if k == 0 else x)] for t, k, x in c["ops"]]})
 
     def collect(c):
@@ -410,7 +411,8 @@ def drive(ctx, scratch, cases):
         elif rc != 0 or not line.startswith("{"):
             c["driver"] = "crash"
         else:
-            c["errors"] = json.loads(line)["errors"]
+            resp = json.loads(line)
+            c["errors"], c["open_max"], c["open_end"] = resp["errors"], resp.get("open_max"), resp.get("open_end")
         c["driver_stderr"] = ("rc=%s " % rc) + (err or "")[-1200:]
         collect(c)
         return c
@@ -423,7 +425,8 @@ def drive(ctx, scratch, cases):
         lines = out.splitlines()
         if rc == 0 and len(lines) == len(small):
             for (i, c), l in zip(small, lines):
-                c["errors"] = json.loads(l)["errors"]
+                resp = json.loads(l)
+                c["errors"], c["open_max"], c["open_end"] = resp["errors"], resp.get("open_max"), resp.get("open_end")
                 collect(c)
         else:                                   # somebody in the batch killed the driver: find out who, one process per history
             for i, c in small:
@@ -454,6 +457,12 @@ def oracle_case(ctx, c, how):
         return 1
     if c.get("errors"):
         ctx.violation({"broken": "manager reported errors", "errors": c["errors"][:3], "how": how, "case": brief(c), "class": "manager-error"})
+        return 1
+    if mode != "pipe" and c.get("open_max") is not None and c["open_max"] > max(CAP, 1):
+        # C20_lru_invariant: never more than max(c,1) handlers open -- the reason the cache exists (issue #1105: "too many open files")
+        ctx.violation({"class": "fanout-open-files-bound", "what": "the manager held more files open than its capacity", "capacity": CAP,
+                       "open_files_max": c["open_max"], "open_files_before_close": c.get("open_end"), "how": how, "mode": mode, "fmt": fmt,
+                       "pattern": c.get("pattern"), "distinct_targets": len({o[0] for o in ops}), "input": brief(c)})
         return 1
     bad = [t for t in sorted(exp) if c["after"].get(t, "") != exp[t]]
     if not bad:
@@ -828,7 +837,7 @@ def run(ctx):
         CAP = int(m.group(1))
     ctx.cov["capacity_constant"] = CAP
     forbidden_gate(ctx, ["Base", "C20"])
-    ok, why = check_props(ctx, "C20/Props.v", ["C20/Harness.vo", "C20/Proofs.vo", "C20/ProofsR.vo"])
+    ok, why = check_props(ctx, "C20/Props.v", ["C20/Harness.vo", "C20/Proofs.vo", "C20/ProofsR.vo", "C20/HarnessG.vo", "C20/ProofsW.vo", "C20/WritersYaml.vo", "C20/ProofsChain.vo", "C20/HarnessChain.vo"])
     scratch = tempfile.mkdtemp(prefix="verif-c20-", dir="/tmp")
     try:
         cases = build_cases(ctx)
@@ -846,6 +855,9 @@ def run(ctx):
         with ctx.timed("e2e"):
             e2e(ctx, scratch)
             chain_terms = tee_then_head(ctx, scratch)
+        if ok:
+            from checks import c20_writers as CW
+            CW.run_writers(ctx, scratch, CAP, drive, coq_eval_defs)
     finally:
         shutil.rmtree(scratch, ignore_errors=True)
     if not ok:
@@ -864,11 +876,20 @@ def run(ctx):
     with ctx.timed("coq_cases"):
         bad, err = coq_eval_defs(ctx, "C20", defs, names, shard=per)
         bad = [order[i] if i >= 0 else i for i in bad]
+        open_cases = [c for c in cases if c["mode"] != "pipe" and c.get("driver", "ok") == "ok" and not c.get("errors") and c.get("open_end") is not None]
+        open_terms = ["(%d, [%s], %d)" % (CAP, "; ".join(coq_bytes(o[0]) for o in c["ops"]), c["open_end"]) for c in open_cases]
+        bad3, err3 = coq_eval_mismatches(ctx, "C20open", "Base.Record C20.Model C20.HarnessG", "Z * list bytes * Z", "chk_open", open_terms)
         bad2, err2 = coq_eval_mismatches(ctx, "C20chain", "Base.Record C20.Model C20.Harness", "Z * Z * Z * Z * Z", "chk_chain", chain_terms)
     ctx.cov["correspondence"] = {"cases": len(terms) + len(chain_terms), "mismatches": len(bad) + len(bad2)}
-    if err or err2:
-        ctx.violation({"broken": "correspondence-evaluation", "detail": (err + err2)[-2000:]}, found_input=False)
+    ctx.cov["correspondence_open_files"] = {"cases": len(open_terms), "mismatches": len(bad3)}
+    if err or err2 or err3:
+        ctx.violation({"broken": "correspondence-evaluation", "detail": (err + err2 + err3)[-2000:]}, found_input=False)
         return
+    for i in bad3[:3]:
+        c = open_cases[i]
+        ctx.violation({"class": "fanout-open-files-bound", "what": "number of files the manager holds open before Close() differs from the model (C20_open_set_is_most_recently_used: min(distinct targets, capacity))",
+                       "open_files_before_close": c["open_end"], "open_files_max": c.get("open_max"), "capacity": CAP,
+                       "distinct_targets": len({o[0] for o in c["ops"]}), "mode": c["mode"], "fmt": c["fmt"], "pattern": c.get("pattern"), "input": brief(c)})
     for i in bad[:3]:
         c = cases[i]
         # the oracle has already looked at this case; a model/implementation difference without an oracle failure is reported as such
